@@ -22,7 +22,19 @@ ASSUMPTIONS = [
 XCELLS = [None, 1, 2, 2.5, NAN(1), 'a', 'ab']          # NAN(1): one NaN object per *cell* (fresh ids per row below)
 VALS = [None, 1, 2, 2.5, 'a', 'ab', 3]                # 3 matches nothing
 REGEX = ['a', '^a$', 'zzz', 'b$']
-FUNCS = ['x_is_none', 'y_even', 'true', 'false', 'x_str', 'xy', 'y_mod2', 'x_itself', 'y_or_none', 'x_len']
+FUNCS = ['x_is_none', 'y_even', 'true', 'false', 'x_str', 'xy', 'y_mod2', 'x_itself', 'y_or_none', 'x_len', 'kwonly', 'kwonly_nodefault', 'partial']
+
+
+def _kwonly(x, *, y=-5):
+    return x is not None and y >= 1
+
+
+def _kwonly2(y, *, z):
+    return y in (0, 3) and z == 'k'
+
+
+def _three(x, y, q=7):
+    return y >= q and x is None
 
 
 def _funcs():
@@ -38,6 +50,10 @@ def _funcs():
         'x_itself': (lambda x: x, lambda r: bool(r['x'])),
         'y_or_none': (lambda y: y or None, lambda r: bool(r['y'])),
         'x_len': (lambda x: len(x) - 1 if isinstance(x, str) else 0, lambda r: isinstance(r['x'], str) and len(r['x']) > 1),
+        # a keyword-only parameter names a column like any other parameter does
+        'kwonly': (_kwonly, lambda r: r['x'] is not None and r['y'] >= 1),
+        'kwonly_nodefault': (_kwonly2, lambda r: r['y'] in (0, 3) and r['z'] == 'k'),
+        'partial': (__import__('functools').partial(_three, q=1), lambda r: r['y'] >= 1 and r['x'] is None),
     }
 
 
@@ -55,6 +71,9 @@ def conditions():
     conds.append(['kw', {'x': ['list', []]}])
     conds.append(['kw', {'x': ['tuple', [1, 'a']]}])
     conds.append(['kw', {'x': ['tuple', [None, 2.5]]}])
+    for one in (None, 1, 'a'):
+        conds.append(['kw', {'x': ['tuple', [one]]}])          # a tuple of exactly one admissible value (None included)
+    conds.append(['kw', {'x': ['list', [None]]}])
     for p in REGEX:
         conds.append(['kw', {'x': ['re', p]}])
     # conjunctions with a second column
